@@ -69,16 +69,35 @@ Proof.
   rewrite H1, (IH o H2). reflexivity.
 Qed.
 
-Theorem agree_transfers_no_slot_twice : forall c h ae ops snaps al pl reorg,
-  agree_hist c (Some (h, ae)) ops snaps al pl reorg = true ->
+Lemma init_of_init_state : forall c init, exists h ae, init_of c init = init_state h ae.
+Proof. intros c [[h ae]|]; [exists h, ae | exists false, 0]; reflexivity. Qed.
+
+Theorem agree_transfers_no_slot_twice : forall c init ops snaps al pl reorg,
+  agree_hist c init ops snaps al pl reorg = true ->
   0 < ct_spe (c_ct c) -> bounded c 0 ->
-  hist_ok shadowed c 0 (init_state h ae) ops ->
+  hist_ok shadowed c 0 (init_of c init) ops ->
   NoDup (map fst al) /\ NoDup (map fst pl).
 Proof.
-  intros c h ae ops snaps al pl reorg H Hspe B Hok. unfold agree_hist in H. cbn [init_of] in H.
+  intros c init ops snaps al pl reorg H Hspe B Hok. unfold agree_hist in H.
+  destruct (init_of_init_state c init) as [h [ae Ei]]. rewrite Ei in *.
   apply andb_true_iff in H. destruct H as [H _]. apply andb_true_iff in H. destruct H as [H Hp].
   apply andb_true_iff in H. destruct H as [_ Ha].
   apply list_match_logs in Ha. apply list_match_logs in Hp.
   destruct (no_slot_twice shadowed c Hspe B h ae ops Hok) as [N1 [N2 _]].
   unfold att_slots, prop_slots in *. rewrite <- Ha, <- Hp. split; assumption.
+Qed.
+
+(* the whole check on a well-formed history case: [agree] alone already implies the property of the
+   observed run, through the theorem *)
+Theorem agree_wf_case_no_slot_twice : forall id c init ops snaps al pl reorg,
+  agree {| c_id := id; c_body := BHist c init ops snaps al pl reorg true |} = true ->
+  NoDup (map fst al) /\ NoDup (map fst pl).
+Proof.
+  intros id c init ops snaps al pl reorg H. unfold agree in H. cbn [c_body] in H.
+  apply andb_true_iff in H. destruct H as [Ha H]. apply andb_true_iff in H. destruct H as [H Hh].
+  apply andb_true_iff in H. destruct H as [Hs Hb].
+  apply (agree_transfers_no_slot_twice c init ops snaps al pl reorg Ha).
+  - lia.
+  - unfold bounded, bounded_b in *. lia.
+  - apply hist_ok_b_sound; [lia | exact Hh].
 Qed.
